@@ -4,7 +4,7 @@
    was read through).  What the model cannot exhibit: real preemption points, nogil sections, dict atomicity.
    Model: Conc/Conc.v (queries as programs of atomic actions on the shared state of View/Purity.v). *)
 From Coq Require Import ZArith.
-From SA Require Import Base.Prelude Index.Index View.View View.Purity View.Purity_Proofs View.Purity_Indexed Index.Index_Spec Conc.Conc Conc.Conc_Proofs Conc.Conc_Indexed.
+From SA Require Import Base.Prelude Index.Index View.View View.Purity View.Purity_Proofs View.Purity_Indexed Index.Index_Spec Conc.Conc Conc.Conc_Proofs Conc.Conc_Indexed Conc.Conc_Indexed2.
 Open Scope N_scope.
 (* an interleaving in which a view is sliced (its handle reset) between the two term reads of a phrase query *)
 Example C20_interleaving_example :
@@ -84,3 +84,24 @@ Theorem C20_indexed_fresh : forall docs bs ix cg queries pgs s,
   = results (snd (run_sched (init_pool ix cg) (map spawn pgs) (serial_schedule (map spawn pgs)))) /\
   results (snd (run_sched (init_pool ix cg) (map spawn pgs) s)) = map (answer_of (init_pool ix cg)) queries.
 Proof. exact indexed_C20_fresh. Qed.
+
+(* ================= NO premise and NO domain condition: every non-empty indexed corpus =================
+   any pool reached by ANY history, ANY concurrent queries (tf with ranges, phrases with repetitions, docfreq, scores,
+   selections), ANY schedule (Conc/Conc_Indexed2.v, from the phrase locality theorem of View/View_Phrase3.v) *)
+Theorem C20_every_interleaving : forall docs bs ix cg ops outs p0 queries pgs sched p' ths',
+  wf_docs docs -> docs <> [] -> index false bs docs = AOk ix ->
+  run (init_pool ix cg) ops = (outs, p0) ->
+  progs_of p0 queries = Some pgs -> run_sched p0 (map spawn pgs) sched = (p', ths') ->
+  forall i q th r, nth_error queries i = Some q -> nth_error ths' i = Some th -> th_result th = Some r ->
+    Some r = answer_of p0 q.
+Proof. exact indexed_sched_results_answer_any. Qed.
+Print Assumptions C20_every_interleaving.
+
+Theorem C20_schedule_eq_serial : forall docs bs ix cg ops outs p0 queries pgs s,
+  wf_docs docs -> docs <> [] -> index false bs docs = AOk ix ->
+  run (init_pool ix cg) ops = (outs, p0) -> progs_of p0 queries = Some pgs ->
+  all_done (snd (run_sched p0 (map spawn pgs) s)) ->
+  results (snd (run_sched p0 (map spawn pgs) s))
+  = results (snd (run_sched p0 (map spawn pgs) (serial_schedule (map spawn pgs)))) /\
+  results (snd (run_sched p0 (map spawn pgs) s)) = map (answer_of p0) queries.
+Proof. exact indexed_C20_any. Qed.
